@@ -125,7 +125,7 @@ func (g *opw) noiseOp() {
 	case 7:
 		g.emit(op{K: "propT", Mask: g.memberMask(), A: gen.Uniform(rt, "thr", 4), B: g.execOffset(5)})
 	case 8:
-		g.emit(op{K: "propF", A: gen.OneOf(rt, "fsel", 0, 1, 2, 100, 101), B: g.execOffset(2)})
+		g.emit(op{K: "propF", A: gen.OneOf(rt, "fsel", 0, 1, 2, 100, 101, selDKG, selFallen, selExpired, selGhost), B: g.execOffset(2)})
 	case 9:
 		g.emit(op{K: "dkg", A: gen.Uniform(rt, "g", 2), Mask: 0xff})
 	}
@@ -242,7 +242,7 @@ func (g *opw) forceSegment() {
 	if gen.Chance(rt, "fmin", 1, 2) {
 		off = g.c.Min + gen.OneOf(rt, "f5", 0, 0, 1)
 	}
-	g.emit(op{K: "propF", A: gen.OneOf(rt, "fsel", 0, 0, 0, 1, 2, 100, 101), B: off})
+	g.emit(op{K: "propF", A: gen.OneOf(rt, "fsel", 0, 0, 0, 0, 0, 1, 2, 100, 101, selDKG, selGhost), B: off})
 	g.noise(1, 8)
 	g.emit(op{K: "end", A: 1})
 	if gen.Chance(rt, "second", 1, 6) {
@@ -263,6 +263,140 @@ func (g *opw) forceSegment() {
 	}
 	g.end(true)
 	g.after()
+}
+
+// Selectors of MsgForceTransitionGroup targets that are NOT groups with a finished key generation (late-bound in
+// blockBuilder.build; when no such group exists the selector falls back to "any group").
+const (
+	selDKG     = 200 // + i: a group whose key generation is still running (ROUND_1/2/3), newest first
+	selFallen  = 300 // + i: a group whose key generation failed
+	selExpired = 400 // + i: a group whose key generation expired
+	selGhost   = 500 // + i: an id that does not exist (group count + 1 + i)
+)
+
+// forceNonActiveSegment: governance names, in MsgForceTransitionGroup, a group that never finished key generation:
+//
+//	0 the left-over incoming group of a normal transition that was dropped at its ExecTime while still creating,
+//	1 the same with a member that stopped taking part (the key generation is stalled in some round),
+//	2 the incoming group of the transition that is still in progress (and, afterwards, once more when it is over),
+//	3 a group that fell (false complaint), 4 a group that expired, 5 an id that does not exist;
+//
+// then the chain is taken to the forced ExecTime. The statement allows the signing group to change only to a group
+// that finished key generation, so every one of these proposals has to fail and to change nothing.
+func (g *opw) forceNonActiveSegment() {
+	rt, c := g.rt, g.c
+	if gen.Chance(rt, "preact", 1, 2) {
+		g.emit(op{K: "actall"})
+	}
+	if gen.Chance(rt, "predes", 1, 2) {
+		g.emit(g.desall(gen.Range(rt, "nde", 1, 3)), op{K: "end", A: 1})
+	}
+	clip := func(off int) int {
+		if off > c.Max {
+			off = c.Max
+		}
+		if off < c.Min {
+			off = c.Min
+		}
+		return off
+	}
+	propT := func(off int) {
+		g.emit(op{K: "propT", Mask: g.memberMask(), A: gen.Uniform(rt, "thr", 4), B: off}, op{K: "end", A: 1}, op{K: "endv"})
+	}
+	round := func() { g.emit(op{K: "dkg", Mask: 0xff}, op{K: "end", A: 1}) }
+	force := func(sel int) {
+		// an execution time inside the window, so that the group is the only thing wrong with the proposal
+		off := c.Min + gen.OneOf(rt, "f5", 0, 0, 1)
+		if gen.Chance(rt, "foff", 1, 4) {
+			off = g.execOffset(2)
+		}
+		g.emit(op{K: "propF", A: sel + gen.OneOf(rt, "seli", 0, 0, 0, 1), B: clipOr(off, c, gen.Chance(rt, "fclip", 7, 8))})
+		if gen.Chance(rt, "freq", 1, 3) {
+			g.emit(op{K: "req", A: gen.Uniform(rt, "u", nReq)})
+		}
+		g.emit(op{K: "end", A: 1}, op{K: "endv", A: gen.OneOf(rt, "vn", 0, 0, 0, 1)})
+	}
+	finish := func() {
+		for i, n := 0, gen.Range(rt, "waitn", 0, 1); i < n; i++ {
+			g.emit(op{K: "req", A: gen.Uniform(rt, "u", nReq), B: gen.Pick(rt, "feev", 5, 2, 1)}, op{K: "end", A: 1})
+		}
+		g.end(true)
+		g.after()
+	}
+	switch variant := gen.Pick(rt, "fnav", 6, 3, 3, 2, 2, 1); variant {
+	case 0, 1:
+		// room for the proposals before the left-over group expires (CreationPeriod is counted in blocks)
+		if c.Creation < 8 {
+			c.Creation = gen.Range(rt, "creationl", 8, 10)
+		}
+		rounds := gen.Uniform(rt, "rounds", 3) // completed rounds before the drop: the group is left in ROUND_1..3
+		propT(clip(rounds + gen.OneOf(rt, "slackd", 0, 1, 1)))
+		for r := 0; r < rounds; r++ {
+			round()
+		}
+		if variant == 1 {
+			g.emit(op{K: "stop", B: gen.Uniform(rt, "who", 4)}, op{K: "dkg", Mask: 0xff})
+		}
+		g.emit(op{K: "endx", A: gen.OneOf(rt, "xn", 0, 0, 1)}) // still CREATING_GROUP at ExecTime: dropped
+		if gen.Chance(rt, "idle", 1, 4) {
+			g.emit(op{K: "end", A: 1})
+		}
+		force(selDKG)
+		if variant == 1 && gen.Chance(rt, "again", 1, 3) {
+			g.emit(op{K: "dkg", Mask: 0xff})
+		}
+		finish()
+	case 2:
+		propT(g.execOffset(8))
+		for r, n := 0, gen.Uniform(rt, "rounds", 3); r < n; r++ {
+			round()
+		}
+		force(selDKG) // second proposal, and naming a group that is still creating
+		for r := 0; r < 3; r++ {
+			round()
+		}
+		g.emit(op{K: "sign", Mask: 0xff})
+		finish()
+	case 3:
+		if c.Creation < 6 {
+			c.Creation = 6
+		}
+		propT(g.execOffset(5))
+		round()
+		round()
+		g.emit(op{K: "complain", B: gen.Uniform(rt, "who", 4)}, op{K: "dkg", Mask: 0xff}, op{K: "end", A: 1})
+		if gen.Chance(rt, "toexec", 1, 2) {
+			g.emit(op{K: "endx", A: gen.OneOf(rt, "xn", 0, 1)})
+		}
+		force(selFallen)
+		finish()
+	case 4:
+		propT(clip(gen.Range(rt, "offe", 1, 3)))
+		if gen.Chance(rt, "r1", 1, 2) {
+			g.emit(op{K: "stop", B: gen.Uniform(rt, "who", 4)})
+			round()
+		}
+		for i := 0; i < c.Creation; i++ {
+			g.emit(op{K: "end", A: 1})
+		}
+		force(selExpired)
+		finish()
+	default:
+		force(selGhost)
+		finish()
+	}
+}
+
+func clipOr(off int, c *c18Case, clip bool) int {
+	if clip {
+		if off > c.Max {
+			off = c.Max
+		}
+		if off < c.Min {
+			off = c.Min
+		}
+	}
+	return off
 }
 
 // transition A is dropped at its execution time while its hand-over signing S1 is still open in x/tss; transition B
@@ -347,7 +481,9 @@ func genC18(rt *rapid.T) c18Case {
 	nseg := rapid.IntRange(1, 3).Draw(rt, "nseg")
 	for i := 0; i < nseg; i++ {
 		g.starve = gen.Chance(rt, "starve", 1, 4)
-		switch gen.Pick(rt, "seg", 6, 3, 1, 1) {
+		switch gen.Pick(rt, "seg", 6, 3, 1, 1, 4) {
+		case 4:
+			g.forceNonActiveSegment()
 		case 3:
 			g.staleHandoverSegment()
 		case 0:
